@@ -144,6 +144,23 @@ class PackageGenerator:
         if self.enable_custom_operations:
             self.files_to_include.append(self.base_schema_root_file_path)
 
+        self._add_typename_to_fragments_definitions()
+
+    def _add_typename_to_fragments_definitions(self):
+        # Generating result types adds __typename field to abstract selections
+        # of the processed definition. Fragments have to be processed before
+        # any operation string is created, otherwise they are sent without
+        # fields which their models require.
+        for fragment_definition in self.fragments_definitions.values():
+            ResultTypesGenerator(
+                schema=self.schema,
+                operation_definition=fragment_definition,
+                enums_module_name=self.enums_module_name,
+                fragments_definitions=self.fragments_definitions,
+                convert_to_snake_case=self.convert_to_snake_case,
+                custom_scalars=self.custom_scalars,
+            )
+
     def generate(self) -> List[str]:
         """Generate package with graphql client."""
         self._include_exceptions()
